@@ -252,6 +252,7 @@ deriving DecidableEq, Repr
 
 structure Out where
   chain    : List Block            -- as broadcast, in order
+  times    : List Nat              -- broadcast instant of each block (µs after `Start`)
   subs     : List SubOut
   accepted : List (List Bool)      -- per submission, per submitting node: `Transmit` returned nil
   results  : List Rec              -- `Results()` (a Go map: compared in the canonical order of `recLe`)
@@ -275,6 +276,8 @@ structure Input where
   reports : List (List String)         -- work ids of each report
   txs     : List (Nat × Submission)    -- ascending in time
   queries : List Nat                   -- ascending; mid-run queries of every report tracker
+  attach  : List Nat                   -- per subscriber: instant (µs) at which it subscribes; 0: before `Start`
+  detach  : List Nat                   -- per subscriber: instant (µs) at which it unsubscribes; 0: never
 deriving Repr
 
 /-- the implementation's choices the model is told about -/
@@ -348,10 +351,22 @@ def sortBy {α} (le : α → α → Bool) (l : List α) : List α := l.foldr (in
 def recLe (a b : Rec) : Bool :=
   a.t.rep < b.t.rep || (a.t.rep == b.t.rep && a.t.round ≤ b.t.round)
 
-/-- arrival order at a subscriber whose deliveries are delayed by `delays` (distinct arrival instants) -/
-def arrivalOrder (cadence count : Nat) (delays : List Nat) : List (Nat × Nat) :=
+/-- broadcast instant (µs after `Start`) of block `i`: `run` broadcasts block 0 at once, then one per tick -/
+def blockTime (cadence i : Nat) : Nat := i * cadence * 1000
+
+/-- a block going out at instant `t` is sent to a subscriber that subscribed at `att` (0: before
+    `Start`) and unsubscribes at `det` (0: never): `broadcast` ranges over the subscriptions of that moment -/
+def inWindow (att det t : Nat) : Bool := decide (att ≤ t) && (det == 0 || decide (t < det))
+
+/-- the blocks broadcast while the subscriber was attached -/
+def subChain (att det : Nat) (chain : List Block) (times : List Nat) : List Block :=
+  ((chain.zip times).filter fun x => inWindow att det x.2).map (·.1)
+
+/-- arrival order of the blocks `idx` at a subscriber whose deliveries are delayed by `delays`
+    (distinct arrival instants): (arrival time in ms, block index) -/
+def arrivalOrder (cadence : Nat) (idx : List Nat) (delays : List Nat) : List (Nat × Nat) :=
   sortBy (fun a b => a.1 < b.1 || (a.1 == b.1 && a.2 ≤ b.2))
-    ((List.range count).map fun i => (i * cadence + delays.getD i 0, i))
+    (idx.map fun i => (i * cadence + delays.getD i 0, i))
 
 /-- the chain of a run: block `i` has number `genesis + i`, the hash the implementation gave it and
     the transmits the loader put into it -/
@@ -365,13 +380,18 @@ def runResults (chain : List Block) (tl : TL) : List Rec :=
   sortBy recLe (tl.transmitted.map fun t =>
     { t := t, block := (chain.find? fun b => b.txs.contains t).map (·.number) : Rec })
 
+/-- indices of the blocks broadcast while subscriber `s` is attached -/
+def runWindow (inp : Input) (s : Nat) : List Nat :=
+  (List.range inp.count).filter fun i =>
+    inWindow (inp.attach.getD s 0) (inp.detach.getD s 0) (blockTime inp.cadence i)
+
 /-- (arrival time in ms, block index) of the deliveries to subscriber `s`, in arrival order -/
 def runTimed (inp : Input) (ch : Choices) (s : Nat) : List (Nat × Nat) :=
   match ch.orders.getD s none with
   | some ord => ord.map fun i => (0, i)
-  | none => arrivalOrder inp.cadence inp.count (inp.delays.getD s [])
+  | none => arrivalOrder inp.cadence (runWindow inp s) (inp.delays.getD s [])
 
-/-- what subscriber `s` observes -/
+/-- what subscriber `s` observes; it exists from its subscription on and answers the queries made after that -/
 def runSub (inp : Input) (ch : Choices) (chain : List Block) (s : Nat) : SubOut :=
   let timed := runTimed inp ch s
   let arrivals := timed.filterMap fun x => chain[x.2]?
@@ -380,15 +400,17 @@ def runSub (inp : Input) (ch : Choices) (chain : List Block) (s : Nat) : SubOut 
   let recv := match ch.recvs.getD s none with
     | some ord => ord.filterMap (chain[·]?)
     | none => arrivals
+  let queries := inp.queries.filter fun q => decide (inp.attach.getD s 0 < q)
   { recv := recv, hists := histories numLt arrivals,
-    events := inp.queries.map (fun q => answer (before q)) ++ [answer arrivals],
-    seen := inp.queries.map (fun q => (before q).length) ++ [arrivals.length] }
+    events := queries.map (fun q => answer (before q)) ++ [answer arrivals],
+    seen := queries.map (fun q => (before q).length) ++ [arrivals.length] }
 
 def run (inp : Input) (ch : Choices) : Out :=
   let groups := inp.txs.zipIdx.map fun (x, j) => (x, ch.winners.getD j [])
   let r := feed inp.cadence inp.count 0 {} groups
   let chain := runChain inp ch r.2.2
-  { chain := chain, subs := (List.range inp.nsubs).map (runSub inp ch chain),
+  { chain := chain, times := (List.range inp.count).map (blockTime inp.cadence),
+    subs := (List.range inp.nsubs).map (runSub inp ch chain),
     accepted := r.2.1, results := runResults chain r.1 }
 
 end AutoVerif.C19
